@@ -1117,13 +1117,163 @@ func recordHistory(t *testing.T, tw *tracelog.Writer, seed int64, nops, drainEve
 		advance(d)
 	}
 
+	// ---- scripted fragments for the incentive accrual oracle of C08 (all through the same entry points) ----
+	// createExact: a position with the given range and amounts (same event shape as doCreate)
+	createExact := func(who int, lo, hi int64, a0, a1 osmomath.Int, mark string) uint64 {
+		ev := &event{Op: "create", Who: who + 1, Args: map[string]any{"lo": lo, "hi": hi, "a0": apphelp.BigI(a0), "a1": apphelp.BigI(a1), "plant": mark}}
+		coins := sdk.NewCoins()
+		if a0.IsPositive() {
+			coins = coins.Add(sdk.NewCoin(d0, a0))
+		}
+		if a1.IsPositive() {
+			coins = coins.Add(sdk.NewCoin(d1, a1))
+		}
+		m := &types.MsgCreatePosition{PoolId: w.poolID, Sender: w.users[who].String(), LowerTick: lo, UpperTick: hi,
+			TokensProvided: coins, TokenMinAmount0: osmomath.ZeroInt(), TokenMinAmount1: osmomath.ZeroInt()}
+		var resp *types.MsgCreatePositionResponse
+		o := apphelp.Outcome{Err: "validate-basic"}
+		if err := m.ValidateBasic(); err == nil {
+			o = w.Try(func(ctx sdk.Context) error {
+				var err error
+				resp, err = w.msg.CreatePosition(ctx, m)
+				return err
+			})
+		} else {
+			o.Err = "validate-basic: " + err.Error()
+		}
+		outc(ev, o)
+		id := uint64(0)
+		if o.OK {
+			id = resp.PositionId
+			ev.Res = map[string]any{"id": resp.PositionId, "a0": apphelp.BigI(resp.Amount0), "a1": apphelp.BigI(resp.Amount1),
+				"liq": apphelp.BigD(resp.LiquidityCreated), "lo": resp.LowerTick, "hi": resp.UpperTick}
+		}
+		emit(ev)
+		return id
+	}
+	// a range that contains the current tick
+	rangeAround := func() (int64, int64) {
+		c := curTick()
+		wd := int64(1+rng.Intn(30)) * w.space
+		lo, hi := roundSp(c-wd), roundSp(c+wd)+w.space
+		if hi > types.MaxTick {
+			hi = roundSp(types.MaxTick)
+		}
+		return lo, hi
+	}
+	amtsInRange := func() (osmomath.Int, osmomath.Int) {
+		a0, a1 := w.randAmt(maxExp).AddRaw(1000), w.randAmt(maxExp).AddRaw(1000)
+		if pexp >= 0 {
+			a1 = a1.Mul(pow10(pexp))
+		} else {
+			a0 = a0.Mul(pow10(-pexp))
+		}
+		return a0, a1
+	}
+	posByID := func(id uint64) (posSt, bool) {
+		for _, p := range livePos() {
+			if p.ID == id {
+				return p, true
+			}
+		}
+		return posSt{}, false
+	}
+	smallRate := func() osmomath.Dec {
+		r := osmomath.NewDecFromInt(w.randAmt(5)).QuoInt64(int64(1 + rng.Intn(300)))
+		if r.IsZero() {
+			r = osmomath.OneDec()
+		}
+		return r
+	}
+	// twins (identical range, liquidity and join time, different owners) and a k-multiple of them
+	scTwins := func() {
+		lo, hi := rangeAround()
+		if rng.Intn(4) == 0 {
+			lo, hi = randRange()
+		}
+		a0, a1 := amtsInRange()
+		createExact(rng.Intn(nusers), lo, hi, a0, a1, "twin")
+		createExact(rng.Intn(nusers), lo, hi, a0, a1, "twin")
+		kk := int64(2 + rng.Intn(4))
+		createExact(rng.Intn(nusers), lo, hi, a0.MulRaw(kk), a1.MulRaw(kk), "multiple")
+	}
+	// time passes WITHOUT any liquidity update, then an incentive is created (starting now), then - shortly
+	// after - a position joins: the time before the incentive existed must not be paid for
+	scLateIncentive := func() {
+		d := time.Duration(5+rng.Intn(900)) * time.Second
+		if rng.Intn(3) == 0 {
+			d = time.Duration(1+rng.Intn(48)) * time.Hour
+		}
+		advance(d)
+		di := 2 + rng.Intn(2)
+		rate := smallRate()
+		amt := rate.MulInt64(int64(30 + rng.Intn(20000))).TruncateInt().AddRaw(1)
+		incentiveWith(di, amt, rate, 0, "late")
+		advance(time.Duration(1+rng.Intn(3)) * time.Second)
+		lo, hi := rangeAround()
+		a0, a1 := amtsInRange()
+		createExact(rng.Intn(nusers), lo, hi, a0, a1, "late-joiner")
+		advance(time.Duration(1+rng.Intn(120)) * time.Second)
+	}
+	// several records on one denom: one that runs out within seconds, one starting in a few seconds,
+	// one starting in hours
+	scBurst := func() {
+		di := 2 + rng.Intn(2)
+		r1, r2, r3 := smallRate(), smallRate(), smallRate()
+		incentiveWith(di, r1.MulInt64(int64(3+rng.Intn(60))).TruncateInt().AddRaw(1), r1, 0, "burst-short")
+		incentiveWith(di, r2.MulInt64(int64(100+rng.Intn(5000))).TruncateInt().AddRaw(1), r2, time.Duration(2+rng.Intn(60))*time.Second, "burst-soon")
+		incentiveWith(di, r3.MulInt64(int64(100+rng.Intn(100000))).TruncateInt().AddRaw(1), r3, time.Duration(1+rng.Intn(4))*time.Hour, "burst-later")
+		advance(time.Duration(1+rng.Intn(30)) * time.Second)
+		advance(time.Duration(1+rng.Intn(90)) * time.Second)
+	}
+	// a young position (younger than the uptime of an incentive denom, unless that is one block) accrues
+	// and then collects / is withdrawn / is added to: what it accrued is forfeited
+	scYoung := func() {
+		lo, hi := rangeAround()
+		a0, a1 := amtsInRange()
+		who := rng.Intn(nusers)
+		id := createExact(who, lo, hi, a0, a1, "young")
+		if id == 0 {
+			return
+		}
+		if rng.Intn(3) == 0 { // make sure something is being emitted
+			r := smallRate()
+			incentiveWith(3, r.MulInt64(int64(600+rng.Intn(5000))).TruncateInt().AddRaw(1), r, 0, "young-inc")
+		}
+		advance(time.Duration(1+rng.Intn(50)) * time.Second)
+		p, ok := posByID(id)
+		if !ok {
+			return
+		}
+		liq := osmomath.NewDecFromBigIntWithPrec(tracelog.DecBig(p.Liq), 18)
+		switch rng.Intn(5) {
+		case 0:
+			withdrawPos(p, liq, "young-exit")
+		case 1:
+			withdrawPos(p, liq.MulInt64(int64(1+rng.Intn(99))).QuoInt64(100), "young-partial")
+		case 2:
+			addPos(p, "young-add")
+		default:
+			collectPos("collectInc", p, "young-collect")
+		}
+		advance(time.Duration(1+rng.Intn(600)) * time.Second)
+	}
+
 	doCreate(true)
 	for i := 1; i < nops; i++ {
 		if len(livePos()) == 0 {
 			doCreate(true)
 			continue
 		}
-		switch r := rng.Intn(107); {
+		switch r := rng.Intn(116); {
+		case r >= 114:
+			scTwins()
+		case r >= 112:
+			scBurst()
+		case r >= 110:
+			scYoung()
+		case r >= 107:
+			scLateIncentive()
 		case r >= 104:
 			doEqualize()
 		case r >= 102:
